@@ -113,4 +113,32 @@ def permsFuel : Nat → List Int → List (List Int)
 
 def permutations (l : List Int) : List (List Int) := permsFuel l.length l
 
+/-- `helpers.suffixes` (list branch): `while lst: yield lst; lst = lst[1:]` — the non-empty tails, longest first -/
+def suffixesNE : List Int → List (List Int)
+  | [] => []
+  | x :: xs => (x :: xs) :: suffixesNE xs
+
+/-- `ÞS` (sublists): `for prefix in prefixes(lhs): yield from suffixes(prefix)` -/
+def contiguous (l : List Int) : List (List Int) := (prefixes l).flatMap suffixesNE
+
+/-- `l` (overlapping groups): `window = []; for item: window.append(item); if len(window) == rhs: yield window; window = window[1:]` -/
+def windowsGo (k : Nat) : List Int → List Int → List (List Int)
+  | _, [] => []
+  | w, x :: xs =>
+    if (w ++ [x]).length = k then (w ++ [x]) :: windowsGo k (w ++ [x]).tail xs else windowsGo k (w ++ [x]) xs
+
+def windows (l : List Int) (k : Int) : List (List Int) := if k ≤ 0 then [] else windowsGo k.toNat [] l
+
+/-- `øe` (run-length encoding): `itertools.groupby` — `[key, len(group)]` for every maximal run -/
+def rleGo : Int → Nat → List Int → List (Int × Nat)
+  | prev, n, [] => [(prev, n)]
+  | prev, n, x :: xs => if x = prev then rleGo prev (n + 1) xs else (prev, n) :: rleGo x 1 xs
+
+def rle : List Int → List (Int × Nat)
+  | [] => []
+  | x :: xs => rleGo x 1 xs
+
+/-- `ød` (run-length decoding, on characters): `"".join(elem[0] * elem[1] for elem in lhs)` -/
+def rld (ps : List (Int × Nat)) : List Int := ps.flatMap (fun p => List.replicate p.2 p.1)
+
 end Ls
